@@ -13,6 +13,7 @@ BUILD = _BUILD
 SEMANTIC = [
     (r'postcondition not satisfied', 'ensures'),
     (r'precondition not satisfied', 'call-pre'),
+    (r'precondition not met', 'panic-free'),
     (r'assertion failed', 'assert'),
     (r'invariant not satisfied', 'invariant'),
     (r'loop ensures|ensures not satisfied', 'ensures'),
@@ -291,7 +292,12 @@ def verify_unit(name, timeout=600, rlimit=None, known=()):
         for ch in d.get('children', []):
             spans = spans + ch.get('spans', [])
         ours = [s for s in spans if os.path.basename(s.get('file_name', '')) == base]
-        if kind is None or kind == 'resource' or not ours:
+        if kind is not None and kind != 'resource' and not ours:
+            # a semantic failure whose only span lies in a std/vstd macro expansion (e.g. a reachable `panic!`)
+            res.failures.append(Failure('%s::<somewhere>.panic-free' % unit.name, 'panic-free', msg, '', d.get('rendered', '')[:4000],
+                                        unit.name + '::<somewhere>'))
+            continue
+        if kind is None or kind == 'resource':
             res.undecided.append(dict(reason='resource' if kind == 'resource' else 'not-a-proof-failure',
                                       message=msg, rendered=d.get('rendered', '')[:3000]))
             continue
